@@ -158,7 +158,7 @@ pub fn run(ctx: &mut Ctx) {
     for f in ALL_FMT {
         let names = safe_names(f);
         let g = Gen { names: &names, max_depth: 7, max_arity: 5, placeholders: true, set_bias: false };
-        let n = ctx.share(600_000, 12_000_000) / 3;
+        let n = ctx.share(2_400_000, 24_000_000) / 3;
         for i in 0..n {
             if ctx.out_of_time() {
                 ctx.report.inconclusive.push(format!("random workload for {} cut at {} of {} by the time budget", f.name(), i, n));
